@@ -800,6 +800,18 @@ func main() {
 		allCuts = true
 	}
 	r.Isolate("meshes", func() { enumMeshes(r, maxLen) })
+	// the same enumeration over vertices that nearly coincide: equal up to the sign of a zero, one float32
+	// subnormal apart, and 3e-9 apart near 0.001 (distinct float32 values closer than any fixed merging grid)
+	r.Isolate("meshes-near-coincident", func() {
+		verts = []model3d.Coord3D{
+			{X: 0, Y: negZero, Z: 1},
+			{X: 1e-45, Y: 0, Z: 1},
+			{X: 0.001, Y: 0.001, Z: 0.001},
+			{X: 0.001 + 3e-9, Y: 0.001, Z: 0.001},
+			{X: 1.0 / (1 << 30), Y: -1.0 / (1 << 31), Z: 3.0 / (1 << 32)},
+		}
+		enumMeshes(r, maxLen)
+	})
 	r.Isolate("csv-text", func() { checkCSV(r); checkTextFormats(r) })
 	r.Isolate("generic-ply", func() { enumGenericPLY(r, r.Thorough()) })
 	r.Isolate("builders", func() { checkBuilders(r) })
